@@ -12,7 +12,7 @@ LEVEL = {
     "C01": ("Theorems (all source texts, both modes, any table satisfying kernel-checked facts): outcome form of a rejected parse (1 error in stop mode; 1..cap+1 distinct messages in collecting mode), termination of the parse and look-ahead loops (the fuel outcome is unreachable), stream envelope kinds, totality of compile on rectangular documents. Builder crash-freedom on arbitrary input and the linear call bound are not proved: the model represents Python run-time errors explicitly and the tie compares them, the call bound is checked on the implementation against a constant computed from the table.",
             "partial: C01_no_crash and the linear bound are decided by the correspondence/oracle only; filesystem overload of TokenScanner is known finding F4"),
     "C02": ("Theorem C02_accept_iff_sentence: for every finite sequence of line kinds the regenerated 42-state table (ordered tests, fallback chain, both look-aheads) accepts exactly the sentences of the regenerated gherkin.berp grammar; proved by generic look-ahead elimination + subset construction + bisimulation-checker soundness, with the finite certificate computed and kernel-checked on the current table/grammar. C02_events_valid_tree (typed-stack checker): the events of every accepted run form a derivation tree of the grammar. C02_siblings_equal: the five sibling tables, regenerated from their sources, equal Python's (decide +kernel). Tie: all kind sequences up to a bound through the real Parser with a stub matcher, real-text documents.",
-            "text level (each physical line has the intrinsic kind the abstract level assumes) rests on the matcher model + correspondence, not yet on a composed theorem"),
+            "text level: C02_kind_unique (each physical line has exactly one intrinsic kind), textAccepts = kind-level acceptance + no raise, and parse outcome vs textAccepts are proved up to the model crash outcome and the error cap"),
     "C03": ("Theorems about the AST builder model: field rules of every node kind, description joining and trimming, children kept in insertion (= source) order. The whole-document statement (AST = function of the derivation tree, every leaf once) is not yet composed; the tie compares complete ASTs (minus locations/ids) of generated and corpus documents with the model.",
             "partial: C03_ast_of_tree / C03_roundtrip not proved"),
     "C04": ("Theorems: line splitting at LF only; column = indent+1 with the source at that column starting with the reported keyword/delimiter for title, step and doc-string lines; comment/empty/other at column 1; tag columns point at '@' and increase; cell columns per the two-phase specification; unexpected-token location. Tie: all locations of ASTs and errors vs the model; independent slicing oracle on the implementation.",
@@ -36,7 +36,7 @@ LEVEL = {
 }
 
 LEVEL.update({
-    "C01": ("Theorems (all source texts, both modes): outcome form of a rejected parse (1 error in stop mode; 1..cap+1 distinct messages in collecting mode; cap+1 = 11 on the regenerated table), termination of the parse and look-ahead loops (the fuel outcome is unreachable), every error line within 1..lines+1, stream envelope kinds, totality of compile on rectangular documents, and the linear bound calls <= workPerToken(T)*(lines+1) (= 20 per line, computed from the regenerated table) under kernel-checked queue facts. Not proved: builder crash-freedom on arbitrary input (the model represents Python run-time errors explicitly and the tie compares them). Per-call cost is outside the model: every document of the run is first parsed in a child process under a watchdog together with inputs built to make each regular expression backtrack.",
+    "C01": ("Theorems (all source texts, both modes): outcome form of a rejected parse (1 error in stop mode; 1..cap+1 distinct messages in collecting mode; cap+1 = 11 on the regenerated table), termination of the parse and look-ahead loops (the fuel outcome is unreachable), every error line within 1..lines+1, stream envelope kinds, totality of compile on rectangular documents, and the linear bound calls <= workPerToken(T)*(lines+1) (= 20 per line, computed from the regenerated table) under kernel-checked queue facts. Builder crash-freedom is proved on every complete, well-matched token tree (the result is a document or a ragged-table error; completeness derived from ValidTree of the regenerated grammar); not yet proved for rejected inputs and not yet linked to the imperative run (the model represents Python run-time errors explicitly and the tie compares them). Per-call cost is outside the model: every document of the run is first parsed in a child process under a watchdog together with inputs built to make each regular expression backtrack.",
             "partial: C01_no_crash is decided by the correspondence only; filesystem overload of TokenScanner is known finding F4"),
     "C03": ("Node-level theorems (field rules of every node kind, description joining and trimming characterised uniquely, children kept in insertion = source order, crashes only when a needed token/field is missing) and the whole-document composition over token trees: the builder's stack machine computes exactly the structural recursion astOf of the tree (error paths included), and for grammar-shaped trees (shape derived from ValidTree of the regenerated grammar by a kernel-checked fact) the element locations of the AST in source order equal the element-carrying leaves of the tree in order: every element once, nothing else. Tie: complete ASTs (minus locations/ids) of generated and corpus documents vs the model.",
             "partial: the link from the imperative parse's operations to the token tree of its events is by the tie (events stream); C03_roundtrip not proved"),
